@@ -56,6 +56,10 @@ class DistanceRatioController(NewtonController):
 
         theta = second_diff / first_diff
 
+        if theta == 0.0:
+            # the ratio underflowed (single precision): same as a vanishing second step
+            return StepControlResult.from_step_result(final_step, lamb, True)
+
         accepted = theta <= params.theta_max
 
         if accepted:
